@@ -30,11 +30,11 @@ RULE = ("cases: package configurations; executions: convolve_model_dir on both f
         "non-trivial = distinct configurations with >= 2 models")
 ASSUMPTIONS = ["all SEDs of a package share the wavelength grid", "finite value alphabets"]
 REQUIRED_CLASSES = ['permuted-table', 'filenames-disagree-with-model-names', 'listing-reversed', 'sed-wav-ascending', 'three-filters', 'single-model', 'eight-models',
-                    'five-apertures', 'formats-compared', 'fits-compared', 'remove-resolved', 'all-permutations-4', 'apertures-in-other-unit', 'seds-in-subdirs-or-gz', 'parameters-gz']
+                    'five-apertures', 'formats-compared', 'fits-compared', 'remove-resolved', 'all-permutations-4', 'apertures-in-other-unit', 'seds-in-subdirs-or-gz', 'parameters-gz', 'seds-stored-in-Jy']
 TIMEOUT = {'quick': 600, 'thorough': 3000}
 
 AXES = {'n_models': [3, 1, 2, 5, 8], 'n_ap': [2, 1, 3, 5], 'perm': ['identity', 'reversed', 'rotated', 'swap01'], 'fnames': ['same', 'reversed'],
-        'listing': ['sorted', 'reversed'], 'sord': ['wav-desc', 'wav-asc'], 'nfilt': [1, 3], 'rr': [False, True], 'ap_unit': ['AU', 'pc', 'cm'], 'layout': ['flat', 'subdir', 'gz', 'subdir+gz'], 'par_gz': [False, True]}
+        'listing': ['sorted', 'reversed'], 'sord': ['wav-desc', 'wav-asc'], 'nfilt': [1, 3], 'rr': [False, True], 'ap_unit': ['AU', 'pc', 'cm'], 'layout': ['flat', 'subdir', 'gz', 'subdir+gz'], 'par_gz': [False, True], 'funit': ['mJy', 'Jy']}
 
 
 def setup(tier, seed):
@@ -42,7 +42,7 @@ def setup(tier, seed):
     out = [c for c in out if not (c['n_models'] == 1 and c['perm'] != 'identity') and not (c['n_models'] == 2 and c['perm'] == 'rotated')]
     for n in (2, 3, 4):
         for p in itertools.permutations(range(n)):
-            out.append({'fam': 'allperm', 'n_models': n, 'n_ap': 2, 'perm': list(p), 'fnames': 'same', 'listing': 'sorted', 'sord': 'wav-desc', 'nfilt': 1, 'rr': False, 'ap_unit': 'AU', 'layout': 'flat', 'par_gz': False})
+            out.append({'fam': 'allperm', 'n_models': n, 'n_ap': 2, 'perm': list(p), 'fnames': 'same', 'listing': 'sorted', 'sord': 'wav-desc', 'nfilt': 1, 'rr': False, 'ap_unit': 'AU', 'layout': 'flat', 'par_gz': False, 'funit': 'mJy'})
     return {'tier': tier, 'seed': seed, 'cases': out}
 
 
@@ -86,8 +86,11 @@ def _read_conv(path, n_models, n_ap):
     with fits.open(path) as h:
         t = h['CONVOLVED FLUXES'].data
         names = [str(x).strip() for x in t['MODEL_NAME']]
-        ff = np.asarray(t['TOTAL_FLUX'], float).reshape(n_models, n_ap)
-        ee = np.asarray(t['TOTAL_FLUX_ERR'], float).reshape(n_models, n_ap)
+        from astropy import units as u
+        cu = h['CONVOLVED FLUXES'].columns['TOTAL_FLUX'].unit
+        eu = h['CONVOLVED FLUXES'].columns['TOTAL_FLUX_ERR'].unit
+        ff = np.asarray(t['TOTAL_FLUX'], float).reshape(n_models, n_ap) * (u.Unit(cu).to(u.mJy) if cu else 1.0)
+        ee = np.asarray(t['TOTAL_FLUX_ERR'], float).reshape(n_models, n_ap) * (u.Unit(eu).to(u.mJy) if eu else 1.0)
         fw = h[0].header.get('FILTWAV')
         ap = None
         if 'APERTURES' in h:
@@ -156,6 +159,10 @@ def run_case(ctx, case, rec, d):
         pkgwriter.write_conf(md, n_ap > 1, logd_step=0.2, version=ver)
     pkgwriter.write_parameters(md1, base_names, {'par1': np.arange(n_models) + 0.5}, order=perm, gz=case.get('par_gz', False))
     layout = case.get('layout', 'flat')
+    funit = case.get('funit', 'mJy')
+    fscale = 1.0 if funit == 'mJy' else 1e-3        # stored number = physical mJy value * fscale
+    if funit != 'mJy':
+        rec.cls('seds-stored-in-Jy')
     if layout != 'flat':
         rec.cls('seds-in-subdirs-or-gz')
     if case.get('par_gz'):
@@ -163,11 +170,11 @@ def run_case(ctx, case, rec, d):
     # per-file: file names sorted differently from the model names when asked
     for m, nm in enumerate(base_names):
         fname = ('f%02d_sed.fits' % (n_models - 1 - m)) if case['fnames'] == 'reversed' else None
-        pkgwriter.write_sed_file(md1, nm, wav_file, flux[m][:, idx_file], err[m][:, idx_file], apertures_au=ap_file, ap_unit=apu, filename=fname,
+        pkgwriter.write_sed_file(md1, nm, wav_file, flux[m][:, idx_file] * fscale, err[m][:, idx_file] * fscale, unit=funit, apertures_au=ap_file, ap_unit=apu, filename=fname,
                                  subdir=(nm[:4] if m % 2 else nm[:3] + '_') if 'subdir' in layout else None, gz=('gz' in layout and m != 0))
     # cube: cube order = parameter-table order (the format requires it)
     pkgwriter.write_parameters(md2, table_order, {'par1': np.arange(n_models)[perm] + 0.5}, gz=case.get('par_gz', False))
-    pkgwriter.write_cube(md2, table_order, wav_file, flux[perm][:, :, idx_file], unc=err[perm][:, :, idx_file], apertures_au=ap_file, ap_unit=apu)
+    pkgwriter.write_cube(md2, table_order, wav_file, flux[perm][:, :, idx_file] * fscale, unc=err[perm][:, :, idx_file] * fscale, unit=funit, apertures_au=ap_file, ap_unit=apu)
     # ---- filters
     nu_asc = np.sort(pkgwriter.C_M_S / (w_asc * 1e-6))
     order_nu = np.argsort(pkgwriter.C_M_S / (w_asc * 1e-6))          # index into w_asc for increasing nu
